@@ -181,8 +181,6 @@ def _nested(lv, rv, pol, path):
             raise MergeErr("set into %s at %r" % (kl, path))
         return _sets(lv, rv, pol, path)
     if kr == "L":
-        if len(rv[1]) == 0:
-            raise Unspec("empty right-hand list")
         which = "aoh" if is_aoh(rv) else "arrays"
         mode = pol.mode(which, path)
         if kl != "L":
@@ -201,7 +199,9 @@ def _nested(lv, rv, pol, path):
 
 def _lists(L, R, pol, path, recpaths=None):
     if len(R[1]) == 0:
-        return ("EXACT", L)
+        # an empty list is a plain Array: "right" replaces, every other mode
+        # has nothing to add (README: arrays "right" = RHS overwrites LHS)
+        return ("EXACT", R if pol.mode("arrays", path) == "right" else L)
     if is_aoh(R):
         if any(kind(x) != "M" for x in R[1]):
             raise Unspec("mixed Array-of-Hashes")
